@@ -1135,7 +1135,9 @@ peg::parser! {
         pub(crate) rule command_piece() -> () =
             word_piece(<[')']>, true /*in_command*/) {} /
             ([' ' | '\t'])+ {} /
-            ['\'' | '`'] {}
+            // A quote character that does not open a quoted string (e.g. in the body of a
+            // here-document) stands for itself.
+            ['\'' | '`' | '"'] {}
 
         rule backquoted_command() -> String =
             chars:(backquoted_char()*) { chars.into_iter().collect() }
